@@ -61,7 +61,33 @@ func (e *eval) fail(path, rule, why string) {
 
 func (e *eval) amb(why string) { e.res.Ambiguous = append(e.res.Ambiguous, why) }
 
+// containerOr: an (empty) object or array example beside an `or` rule satisfies it when an alternative
+// names its own kind
+func (e *eval) containerOr(n *model.Node, path string) {
+	v, ok := n.Rule("or")
+	if !ok {
+		return
+	}
+	for _, alt := range v.Items {
+		name := alt.Str
+		if alt.K == "set" {
+			for _, r := range alt.Rules {
+				if r.Name == "type" {
+					name = r.Val.Str
+				}
+			}
+		}
+		if name == n.Kind || name == "any" {
+			return
+		}
+	}
+	e.fail(path, "or", "no alternative names the kind of the example ("+n.Kind+")")
+}
+
 func (e *eval) node(n *model.Node, path string) {
+	if n.Kind == "object" || n.Kind == "array" {
+		e.containerOr(n, path)
+	}
 	switch n.Kind {
 	case "object":
 		for i, k := range n.Kids {
@@ -288,7 +314,7 @@ func (e *eval) scalar(lit, kind string, rr []model.Rule, depth int, own string) 
 				if a.K == "str" && b.K == "str" && a.Str == b.Str {
 					continue // the same string under another spelling of its escapes is the same value
 				}
-				if (a.K == "num" && b.K == "num" && dec.Parse(lit) != nil && dec.Parse(own) != nil && dec.Parse(lit).Cmp(dec.Parse(own)) == 0) {
+				if a.K == "num" && b.K == "num" && dec.Parse(lit) != nil && dec.Parse(own) != nil && dec.Parse(lit).Cmp(dec.Parse(own)) == 0 {
 					e.amb("const: equal value spelled differently")
 				}
 				return false, "const", fmt.Sprintf("%s is not the constant %s", lit, own)
